@@ -22,7 +22,7 @@ import os
 from sa import cq, wire
 from sa.cbounds import ctext, strip
 from sa.pyfacts import Unknown, call_name, norm
-from sa.q import Fn, natom
+from sa.q import Fn, inside, natom
 from sa.report import AnalysisError
 
 LEVEL = "other"
@@ -332,7 +332,13 @@ def r3(repo, chk, ref):
     ok = len(loops) == 1 and natom(norm(loops[0].test)) == natom("buf.tell() < end") and any(isinstance(w, ast.With) and any(call_name(i.context_expr) == "pull_block" for i in w.items if isinstance(i.context_expr, ast.Call)) for w in pl.stmts(lambda s: isinstance(s, ast.With)))
     chk.ob("R3", "pull_list reads items until the declared end, inside pull_block", ok, "", pl.loc(pl.node))
     po = Fn(repo, "tls:pull_opaque")
-    ok = any(norm(r.value) == "buf.pull_bytes(length)" for r in po.returns()) and any(isinstance(w, ast.With) for w in po.stmts())
+    # the block's own length is what is read (whatever the names), inside pull_block, and that value is returned
+    withs = [w for w in po.stmts(lambda s: isinstance(s, ast.With)) if any(isinstance(i.context_expr, ast.Call) and call_name(i.context_expr) == "pull_block" and isinstance(i.optional_vars, ast.Name) for i in w.items)]
+    ok = len(withs) == 1
+    if ok:
+        ln = next(i.optional_vars.id for i in withs[0].items if isinstance(i.optional_vars, ast.Name))
+        reads = [c for c in po.calls(name="buf.pull_bytes") if inside(c, withs[0])]
+        ok = len(reads) == 1 and [norm(a) for a in reads[0].args] == [ln] and all(r.value is not None and po.expand(r.value, 2) == f"buf.pull_bytes({ln})" for r in po.returns()) and bool(po.returns())
     chk.ob("R3", "pull_opaque reads exactly the declared number of bytes", ok, "", po.loc(po.node))
     tm = repo.mod("tls")
     n = 0
